@@ -623,6 +623,8 @@ struct Ctx {
     trail: Vec<String>,
     /// derived (line, observation) pairs to emit after the current op
     pending_lines: Vec<(String, String)>,
+    /// connection to a real `Server` serving the current registry (started by the first `wire` op of a sequence)
+    wire: Option<std::net::TcpStream>,
 }
 
 fn is_write_ok(v: &Value) -> bool {
@@ -1019,6 +1021,7 @@ fn exec_seq(out: &mut Out, ctx: &mut Ctx, line: &str) -> Option<(String, bool)> 
             ctx.trail.clear();
             ctx.trail.push(line.to_string());
             ctx.router = None;
+            ctx.wire = None;
             None
         }
         "router" => {
@@ -1135,6 +1138,126 @@ fn exec_seq(out: &mut Out, ctx: &mut Ctx, line: &str) -> Option<(String, bool)> 
                 }
             }
             Some((format!("{} {}", idx, render(&json!(toks))), !toks.is_empty()))
+        }
+        "wire" => {
+            // wire i <version> <notify> <query format> <path P | !> <body format> <body hex|-> <decoder outcome>
+            // One frame sent over TCP to a real blocking `Server` whose router mounts the current registry (same
+            // prefixes), followed by a barrier request; the server's own validation (version, query format, UTF-8,
+            // notify) belongs to other properties – here only C14's clauses are checked on whatever path the request
+            // takes: a request that is not dispatched changes nothing; a dispatched one has exactly the effect (tree,
+            // callables invoked once with the body) and – when answered – the answer of the direct `dispatch`.
+            ctx.trail.push(line.to_string());
+            let trail = ctx.trail.clone();
+            let (ver, notify, qfmt): (u8, u8, u16) = (w[2].parse().unwrap(), w[3].parse().unwrap(), w[4].parse().unwrap());
+            let path: Option<String> = if w[5] == "!" { None } else { Some(unpword(w[5])) };
+            let fmt: u16 = w[6].parse().unwrap();
+            let bytes = unhex(w[7]).expect("body hex");
+            if ctx.wire.is_none() {
+                let mut r = Router::new();
+                for p in &ctx.prefixes {
+                    r = r.with_registry(p, Arc::clone(&ctx.sys.reg));
+                }
+                let server = repe::Server::new(r);
+                let listener = server.listen("127.0.0.1:0").expect("listen");
+                let addr = listener.local_addr().expect("addr");
+                std::thread::spawn(move || {
+                    let _ = server.serve(listener);
+                });
+                let c = std::net::TcpStream::connect(addr).expect("connect");
+                c.set_read_timeout(Some(std::time::Duration::from_secs(10))).unwrap();
+                c.set_nodelay(true).unwrap();
+                ctx.wire = Some(c);
+            }
+            let before = ctx.sys.snapshot();
+            let t_wire = std::time::Instant::now();
+            let id: u64 = 1_000_000 + idx.parse::<u64>().unwrap_or(0) * 2;
+            let q: Vec<u8> = path.as_ref().map(|p| p.as_bytes().to_vec()).unwrap_or(vec![0x2f, 0xff, 0xfe]);
+            let mut f = repe_verif_harness::frames::RawFrame::request(id, notify == 1, qfmt, &q, fmt, &bytes);
+            f.h.version = ver;
+            f.h.notify = notify;
+            let barrier = repe_verif_harness::frames::RawFrame::request(id + 1, false, 1, b"/__barrier__/x", 2, b"");
+            let mut answer: Option<Result<Value, u32>> = None;
+            let mut barrier_seen = false;
+            {
+                use std::io::{Read as _, Write as _};
+                let c = ctx.wire.as_mut().unwrap();
+                let mut out_bytes = f.to_vec();
+                out_bytes.extend(barrier.to_vec());
+                let _ = c.write_all(&out_bytes);
+                let mut buf: Vec<u8> = Vec::new();
+                let mut chunk = [0u8; 65536];
+                while !barrier_seen {
+                    match c.read(&mut chunk) {
+                        Ok(0) | Err(_) => break,
+                        Ok(n) => buf.extend_from_slice(&chunk[..n]),
+                    }
+                    while let Some((fr, used)) = repe_verif_harness::frames::RawFrame::parse_prefix(&buf) {
+                        if fr.h.id == id {
+                            answer = Some(if fr.h.ec == 0 && fr.h.body_format == 2 { parse_json_deep(&fr.body).ok_or(u32::MAX) } else { Err(fr.h.ec) });
+                        }
+                        if fr.h.id == id + 1 {
+                            barrier_seen = true;
+                        }
+                        buf.drain(..used);
+                    }
+                }
+            }
+            out.add("wire.total_ms", t_wire.elapsed().as_millis() as u64);
+            if t_wire.elapsed().as_millis() > 1000 {
+                out.count(&format!("wire.slow.v{}n{}q{}", ver, notify, qfmt));
+            }
+            if !barrier_seen {
+                // the connection died or stalled: whatever the reason (another property's), this sequence cannot go on
+                ctx.wire = None;
+                out.count("wire.no_barrier");
+            }
+            // which requests reach the registry is fixed by the protocol: version 1, JSON-pointer query that is UTF-8,
+            // a mounted prefix; everything else is refused by the server before any handler runs
+            let ptr = match (&path, ver == 1 && qfmt == 1) {
+                (Some(p), true) => o_choose(&ctx.prefixes, p).and_then(|pre| o_strip(std::slice::from_ref(&pre), p)),
+                _ => None,
+            };
+            let body = o_body(fmt, &bytes);
+            let mut twin = Sys::from_snapshot(&before);
+            let want: Option<RRes> = match (&ptr, &body) {
+                (Some(ptr), Ok(b)) => Some(twin.apply(&OpR::Disp(ptr.clone(), b.clone()))),
+                _ => None,
+            };
+            let same_state = twin.root() == ctx.sys.root() && *twin.log.lock().unwrap() == *ctx.sys.log.lock().unwrap();
+            if barrier_seen && !same_state {
+                out.oracle_fail(if want.is_some() { "registry.wire.effect_differs" } else { "registry.wire.refused_mutated" }, &format!("after the request the registry holds {} / {} calls, the direct dispatch (or no dispatch at all) leaves {} / {} calls", render(&ctx.sys.root()), ctx.sys.log_len(), render(&twin.root()), twin.log_len()), &trail);
+            }
+            let dispatched_answer = match (&want, &answer, notify == 1) {
+                (Some(w), Some(a), false) => {
+                    let w2 = w.clone().map_err(|e| if e.0 == "Panic" { u32::MAX } else { e.1 });
+                    if &w2 != a && w2 != Err(u32::MAX) {
+                        out.oracle_fail("registry.wire.answer_differs", &format!("the server answered {:?}, the direct dispatch gives {:?}", a, w2), &trail);
+                    }
+                    true
+                }
+                _ => false,
+            };
+            let nested: Vec<_> = ctx.sys.nested.lock().unwrap().drain(..).collect();
+            for (j, (ptr, v, nr)) in nested.iter().enumerate() {
+                ctx.pending_lines.push((format!("nregv {}.{} {} {}", idx, j + 1, pword(ptr), render(v)), format!("{}.{} {}", idx, j + 1, obs(&ctx.sys, nr))));
+            }
+            out.count(&format!("wire.{}", if want.is_some() { if notify == 1 { "dispatched_notify" } else { "dispatched" } } else { "refused" }));
+            let panicked = matches!(&want, Some(Err((n, _))) if n == "Panic");
+            let s = if panicked {
+                // the callable panicked inside the server: what the peer then sees is not C14's business
+                format!("{} unspecified c{}", idx, ctx.sys.log_len())
+            } else if dispatched_answer {
+                match answer.as_ref().unwrap() {
+                    Ok(v) => format!("{} ok {} c{}", idx, render(v), ctx.sys.log_len()),
+                    Err(c) if *c == u32::MAX || (1_000_001..=1_000_003).contains(c) => format!("{} unspecified c{}", idx, ctx.sys.log_len()),
+                    Err(c) => format!("{} err {} c{}", idx, c, ctx.sys.log_len()),
+                }
+            } else if want.is_some() {
+                format!("{} dispatched c{}", idx, ctx.sys.log_len())
+            } else {
+                format!("{} refused c{}", idx, ctx.sys.log_len())
+            };
+            Some((s, want.is_some()))
         }
         "jpd" => {
             // jpd i D <suffix P>: eval_json_pointer on a document that really is D levels deep (built here, not parsed)
@@ -1895,6 +2018,8 @@ fn gen_sequence(r: &mut Rng, k: &mut u64, ops: &mut Vec<String>, max_len: u64, t
     let mut g = SeqGen { pool: (0..r.range(2, 4)).map(|_| gen_pointer(r, 3)).collect() };
     let n = r.range(5, max_len);
     let mut tag = 0u64;
+    // a few sequences send their mount requests over TCP to a real Server (one listener thread each)
+    let wired = r.chance(1, if thorough { 40 } else { 25 });
     if r.chance(1, 5) {
         // a FULL registry: 12–20 values and 12–16 callables (all kinds) registered in shuffled, non-sorted order, so that
         // the rare events below (replacing a callable whose Drop panics, root replacement, scalar ancestors overwritten,
@@ -1996,7 +2121,15 @@ fn gen_sequence(r: &mut Rng, k: &mut u64, ops: &mut Vec<String>, max_len: u64, t
                 format!("req {} {} {} {} {} {} {}", pword(&path), q, r.below(3), hdr, fmt, hex(&bytes), dec)
             }
         };
-        let op = if !op.starts_with("req ") && r.chance(1, 25) {
+        let op = if wired && op.starts_with("req ") {
+            // the same request as one frame to a real Server: version, notify flag and query format become parameters
+            let w: Vec<&str> = op.split(' ').collect();
+            let q = if w[2] == "=" { w[1].to_string() } else { w[2].to_string() };
+            format!("wire {} {} {} {} {} {} {}", *r.pick(&[1u8, 1, 1, 1, 0, 2, 255]), *r.pick(&[0u8, 0, 1]), *r.pick(&[1u16, 1, 1, 1, 0, 2, 999]), q, w[5], w[6], w[7])
+        } else {
+            op
+        };
+        let op = if !op.starts_with("req ") && !op.starts_with("wire ") && r.chance(1, 25) {
             let n = if thorough { *r.pick(&[1u32, 2, 7, 8, 9, 16, 17, 64, 65, 256, 1000]) } else { *r.pick(&[2u32, 7, 8, 9, 16, 17, 64, 65, 65, 256]) };
             format!("rep {} {}", n, op)
         } else {
@@ -2342,7 +2475,7 @@ fn main() {
         }
         ops
     };
-    let mut ctx = Ctx { sys: Sys::new(), prefixes: vec![], router: None, trail: vec![], pending_lines: vec![] };
+    let mut ctx = Ctx { sys: Sys::new(), prefixes: vec![], router: None, trail: vec![], pending_lines: vec![], wire: None };
     let mut wedged = false;
     for line in ops {
         let line = match line.split_once(" => ") {
